@@ -73,7 +73,58 @@ class StoreModel:
                     out.append((b, tt if neg else ft))
         return out
 
+    # ---- functions that unconditionally remove a key from the store ------------------------------------------
+    def removed_keys(self, g, depth=0):
+        """key expressions (over g's parameters) that g removes from the store on every path (directly or through
+        local calls): after g returns such a key is physically absent"""
+        if not hasattr(self, "_removed"):
+            self._removed = {}
+        if g.name in self._removed:
+            return self._removed[g.name]
+        self._removed[g.name] = []
+        out = []
+        if depth < 5 and g.kind != "Closure":
+            for bb, t in g.calls():
+                if not g.must_pass([0], [bb]):
+                    continue
+                dc = dashmap_call(t)
+                if dc == ("remove", "S"):
+                    out.append(g.op_origin(t["args"][1]))
+                elif t["res"] == "item" and t.get("rpath") in self.F.fns and t.get("rpath") != g.name:
+                    h = self.F.fns[t["rpath"]]
+                    args = [g.op_origin(a) for a in t["args"]]
+                    for k in self.removed_keys(h, depth + 1):
+                        out.append(subst_params(k, args))
+        out = [k for k in out if not mentions(k, lambda s: s[0] in ("var", "unknown", "built", "env"))]
+        self._removed[g.name] = out
+        return out
+
+    def retire_sites(self, fn, key):
+        """blocks of fn whose call unconditionally removes `key` from the store"""
+        out = []
+        for bb, t in fn.calls():
+            if t["res"] == "item" and t.get("rpath") in self.F.fns:
+                h = self.F.fns[t["rpath"]]
+                args = [fn.op_origin(a) for a in t["args"]]
+                for k in self.removed_keys(h):
+                    if same_value(subst_params(k, args), key):
+                        out.append(bb)
+            if dashmap_call(t) == ("remove", "S") and same_value(fn.op_origin(t["args"][1]), key):
+                out.append(bb)
+        return out
+
     def absence_guarded(self, fn, C, key, depth=0):
+        # (a) the key was just removed on this thread: every path to C passes a call that unconditionally removes it
+        rs = [b for b in self.retire_sites(fn, key) if b != C]
+        if rs and fn.must_pass([0], rs, targets=[C]):
+            between = []
+            for r in rs:
+                for b in fn.reach(fn.succs(r), avoid_blocks=[C]):
+                    t = fn.term(b)
+                    if t["k"] == "call" and t.get("rpath") in self.insert_fns and C in fn.reach_after(b):
+                        between.append(b)
+            if not between:
+                return True, "any previous entry of the key is removed (and released) on this thread before the insert, in %s" % fn.name
         edges = self.absence_edges(fn, key)
         if edges and C not in fn.reach([0], avoid_edges=edges):
             # no store insert between the check and C
